@@ -30,14 +30,20 @@ Section 6 (codec bodies): `bc1to5_bodies_trapfree`, `bc7_body_trapfree`, `bc6_bo
 `pixel_loop_wrappers_trapfree` — trapping mirrors (`Trap*.lean`) of the per-block / per-pixel bodies return `some`
 of the wrapping models' values for every input.
 
-NOT modelled for totality (exercised by the tie only, on both build profiles): the external `astc-decode` crate,
-the slicing inside the generic block / plane loops of `read_write.rs` beyond C05's address theorems, and `std`
-(`read_exact`, `io::copy`, `Vec::try_reserve_exact`).  That `f32` arithmetic and float → integer casts never panic
-is a fact about Rust that the mirrors assume.
+Section 7 (generic decode loops of `read_write.rs`): `line_buffer_trapfree`, `channel_conversion_buffer_trapfree`,
+`pixel_loops_trapfree`, `read_exact_image_trapfree`, `block_loops_trapfree`, `biplanar_loops_trapfree`, assembled
+`decode_loops_trapfree`, the F17 pair `f17_repaired_returns` / `f17_unrepaired_traps` — trapping mirrors (`TrapLoops*.lean`)
+of every slice, index and length computation of the loops return `some`, with C06's reader / allocator trace and all
+writes inside the rows of the view.
+
+NOT modelled for totality (exercised by the tie only, on both build profiles): the external `astc-decode` crate, `std`
+(`read_exact`, `io::copy`, `seek`, `Vec::try_reserve_exact`) and termination of the real loops.  That `f32` arithmetic and
+float → integer casts never panic is a fact about Rust that the mirrors assume.
 -/
 import DdsModel.Proofs.C01
 import DdsModel.Proofs.ReaderRefinesRun
 import DdsModel.Theorems.C05
+import DdsModel.Proofs.TrapLoopsPlanar
 import DdsModel.Theorems.C20
 import DdsModel.Drv.C01
 import DdsModel.Proofs.TrapBc
@@ -835,5 +841,382 @@ example :
     TrapUnc.processPixelsUnrollT 4 2 4 14 12 = none ∧ TrapUnc.processPixelsT 2 4 14 28 = some 7 ∧
     TrapUnc.bgraSwapT 8 = some () ∧ TrapUnc.bgraSwapT 6 = none := by
   decide +kernel
+
+/-! ## 7. The generic decode loops of `read_write.rs` do not panic (branch `wL`)
+
+`TrapLoops.lean`, `TrapLoopsBlock.lean`, `TrapLoopsPlanar.lean` are trapping mirrors of `UntypedLineBuffer`,
+`ChannelConversionBuffer::{process_pixels, process_blocks, process_bi_planar}`, `for_each_pixel(_rect)_untyped`,
+`for_each_block(_rect)_untyped` with `general_process_blocks` / `process_4x4/2x1/8x1_blocks_helper` /
+`handle_width_offset`, `for_each_bi_planar(_rect)` with `process_bi_planar_helper`, `read_exact_image`, `for_each_slice`
+and the row access of `ImageViewMut` (`get_row`, `get_row_range`, `rows_mut`, `is_contiguous`): every `a..b` slice, every
+plain `usize` / `u32` / `u8` `+ - *`, every `/` `%` `div_ceil` by a run-time value, `step_by`, `chunks_mut`, every
+`expect` / `unwrap` / `assert!` / `debug_assert!` and every index into a block's pixel array is a possible `none`.  A
+mirror returns the list of events in program order: reader / allocator operations (the vocabulary of C06's traces) and
+written byte ranges.  An I/O error or a memory-limit refusal is an early `return`: the operations executed are a prefix
+of the list, so `some` covers those runs too; the `while let Some(line)` loops carry a fuel whose exhaustion is `none`, so
+`some` also bounds the number of `next_line` calls by `lines + 1`.
+
+Each theorem: for EVERY view `ImageViewMut` can hold (`Img.Ok` = C20's invariant for non-empty views: `u32` sizes,
+pitch ≥ row bytes, data exactly the addressable length, a Rust slice), every surface size `< 2^32` whose encoded length
+passed `check_likely_overflow`, every rect inside it, every native / target colour pair of equal precision, every
+alignment of the output buffer: the mirror returns `some evs`, the reader / allocator trace of `evs` IS the trace of
+C06 / C07's model `Stream.lean` (bytes per refill, skips, allocation sizes), and every written range lies inside
+`[row · pitch, row · pitch + w · bpp)` of a row `< h` (C05's address statement, re-derived from the slicing itself). -/
+
+open TrapLoops in
+/-- **`UntypedLineBuffer`** (`new`: `TARGET_BUFFER_SIZE / bytes_per_line`, `clamp(1, height)`, the `usize` product;
+`next_line`: refill arithmetic, `buf[..buf_filled]`, `buf[current_line_start..line_end]`): for every line length
+`1 ≤ bytes_per_line < 2^64`, every line count `≥ 1` and every loop body that returns on every line, the loop
+`while let Some(line) = next_line()` hands out exactly `height` lines of `bytes_per_line` bytes, terminates within
+`height + 1` calls, and reads exactly C06's refill list. -/
+theorem line_buffer_trapfree (bpl height : Nat) (hb : 0 < bpl) (hbl : bpl < TrapLoops.USIZE) (hh : 0 < height) :
+    ∃ lb, LB.newT bpl height = some (lb, [TrapLoops.Ev.io (.alloc (Stream.lineBufLen bpl height))]) ∧
+      ∀ {σ : Type} (body : σ → Sl → Option (σ × List TrapLoops.Ev)) (Inv : Nat → σ → Prop) (R : Sl → Prop) (st : σ),
+        (∀ k st line, k < height → Inv k st → line.buf = .line → line.len = bpl →
+          ∃ st' e, body st line = some (st', e) ∧ Inv (k + 1) st' ∧ Quiet R e) → Inv 0 st →
+        ∃ evs, whileLinesT body (height + 1) lb st = some evs ∧ ios evs = Stream.refills bpl height ∧ Wr R evs := by
+  obtain ⟨lb, h1, h2, h3⟩ := LB.newT_spec hb hbl hh
+  refine ⟨lb, h1, ?_⟩
+  intro σ body Inv R st hbody h0
+  obtain ⟨evs, e1, e2, e3⟩ := whileLines_spec body _ bpl height Inv R hbody (height + 1) lb 0 height st 0 h3 h2
+    (by omega) (by omega) h0
+  exact ⟨evs, e1, by rw [e2, refillsFrom_stream hb], e3⟩
+
+/-- non-vacuity, and the seeded change `seeded/C01e` (the lower clamp of the line count dropped: `buf_len =
+round_down_to_multiple(TARGET_BUFFER_SIZE, bytes_per_line).min(height * bytes_per_line)`): a 70 000-byte line gets a
+one-line buffer and two lines are handed out; with the mutated length (0 bytes) the first `next_line` slices
+`buf[0..70000]` out of an empty buffer — the mirror traps. -/
+example :
+    (TrapLoops.LB.newT 70000 2).map (·.1) = some ⟨70000, 0, 70000, 2, 70000⟩ ∧
+    TrapLoops.whileLinesT (fun (_ : Unit) _ => some ((), [])) 3 ⟨70000, 0, 70000, 2, 70000⟩ () =
+      some [.io (.read 70000), .io (.read 70000)] ∧
+    (SrcConsts.TARGET_BUFFER_SIZE - SrcConsts.TARGET_BUFFER_SIZE % 70000 = 0 ∧
+      TrapLoops.whileLinesT (fun (_ : Unit) _ => some ((), [])) 3 ⟨0, 0, 70000, 2, 0⟩ () = none) ∧
+    TrapLoops.LB.newT 0 2 = none ∧ TrapLoops.LB.newT 16 0 = none := by
+  decide +kernel
+
+open TrapLoops in
+/-- **`ChannelConversionBuffer`** (`process_pixels`: `out.len() / bpp`, `encoded.len() / pixels`, `3072 / native_bpp`,
+`step_by`, the three chunk slices; `process_blocks`: `3072 / (bpp · height)` `as u32`, the width-offset chunk through the
+temporary buffer, `round_down_to_multiple`, `block_offset` / `block_count`, `out[chunk_start · bpp ..][y · pitch ..]`,
+the per-row `convert_channels_for`; `process_bi_planar`: the same on two planes) — with or without conversion, for every
+row of `1 ≤ n < 2^32` pixels, every block row and rect geometry, every pixel function that fits the pixel sizes.
+After repair F17 `process_blocks` needs NO bound on the width beyond `u32`. -/
+theorem channel_conversion_buffer_trapfree :
+    (∀ (native : Color) (target : Unc.Channels) (f : PxFn) (encSize n : Nat) (enc out : Sl),
+      (native.psz = 1 ∨ native.psz = 2 ∨ native.psz = 4) → f.Fits encSize native.bpp → encSize < 256 → 0 < n → n < U32B →
+      enc.len = n * encSize → out.len = n * (Color.mk target native.psz).bpp →
+      ∃ evs, convPixelsT native target f enc out = some evs ∧ Quiet (WrOK out) evs) ∧
+    (∀ (native : Color) (target : Unc.Channels) (p : BlkFn) (bpb : Nat) (enc out : Sl) (rowPitch : Nat) (r : Addr.PRange)
+      (al : Sl → Bool), ConvPre native target p bpb enc out rowPitch r →
+      ∃ evs, convBlocksT native target p bpb al bpb p.bx enc out rowPitch r = some evs ∧
+        Quiet (ConvOK out rowPitch (r.re - r.rs) (r.width * (Color.mk target native.psz).bpp)) evs) ∧
+    (∀ (native : Color) (target : Unc.Channels) (ssx p1 p2 : Nat) (plane1 plane2 out : Sl) (offset width : Nat),
+      (native.psz = 1 ∨ native.psz = 2 ∨ native.psz = 4) → ssx < 16 → p1 < 16 → p2 < 16 →
+      PlPre ssx p1 p2 (Color.mk target native.psz).bpp plane1 plane2 out offset width →
+      ∃ evs, convPlanarT native target ssx p1 p2 plane1 plane2 out offset width = some evs ∧ Quiet (WrOK out) evs) :=
+  ⟨fun _ _ _ _ _ _ _ hp hf hE hn0 hn he ho => convPixelsT_spec hp hf hE hn0 hn he ho,
+   fun _ _ _ _ _ _ _ _ al h => convBlocksT_spec al h,
+   fun _ _ _ _ _ _ _ _ _ _ hp hs h1 h2 h => convPlanarT_spec hp hs h1 h2 h⟩
+
+open TrapLoops in
+/-- the full-width `R1_UNORM` line of finding F17 (4 294 966 273 pixels, native Grayscale U8 → Alpha U8): the contract
+of `process_blocks` holds, so the repaired code does not trap … -/
+theorem f17_repaired_returns (al : Sl → Bool) :
+    ∃ evs, convBlocksT ⟨.gray, 1⟩ .alpha .eight 1 al 1 8 ⟨.line, 0, 536870785⟩ ⟨.out, 0, 4294966273⟩ 4294966273
+      ⟨4294966273, 0, 0, 1⟩ = some evs :=
+  have pre : ConvPre ⟨.gray, 1⟩ .alpha .eight 1 ⟨.line, 0, 536870785⟩ ⟨.out, 0, 4294966273⟩ 4294966273
+      ⟨4294966273, 0, 0, 1⟩ :=
+    { shape := ⟨by decide, by decide, by decide, by decide, by decide, fun _ => rfl, by decide⟩, psz := Or.inl rfl, buf := by decide, wo_lt := by decide, w_ok := Or.inl (by decide),
+      wsum_lt := by decide, rows := by decide, re_le := by decide, enc_len := by decide +kernel,
+      out_len := by decide +kernel, out_lt := by decide }
+  (convBlocksT_spec al pre).imp fun _ h => h.1
+
+open TrapLoops in
+/-- … while the line as it was before the repair (`chunk_start + preferred_chunk_size` in plain `u32`) traps in the last
+chunk (start 4 294 966 272 = 1 398 101 · 3072): the theorem-level record of F17. -/
+theorem f17_unrepaired_traps (al : Sl → Bool) :
+    convBlocksUnrepairedT ⟨.gray, 1⟩ .alpha .eight 1 al 1 8 ⟨.line, 0, 536870785⟩ ⟨.out, 0, 4294966273⟩ 4294966273
+      ⟨4294966273, 0, 0, 1⟩ = none := by
+  have hmem : 4294966272 ∈ Addr.stepStarts 4294966273 3072 :=
+    (Addr.mem_stepStarts (by decide)).2 ⟨1398101, by decide, by decide⟩
+  have hbody : convBlockChunkT (fun a b => ck32 (a + b)) ⟨.gray, 1⟩ .alpha .eight 1 al 1 8 1 1 1 3072 4294966273
+      4294966273 ⟨4294966273, 0, 0, 1⟩ ⟨.line, 0, 536870785⟩ ⟨.out, 0, 4294966273⟩ 4294966272 = none := by
+    unfold convBlockChunkT
+    have : ck32 (4294966272 + 3072) = none := by decide +kernel
+    simp only [this]; rfl
+  have hloop := forT_none _ _ _ hmem hbody
+  unfold convBlocksUnrepairedT convBlocksWithT
+  rw [if_neg (by decide)]
+  have e1 : Trap.subU 1 0 = some 1 := by decide +kernel
+  have e2 : Color.bppT ⟨.gray, 1⟩ = some 1 := by decide +kernel
+  have e3 : ckU (1 * 1) = some 1 := by decide +kernel
+  have e4 : Trap.div BUFFER_BYTES 1 = some 3072 := by decide +kernel
+  have e5 : Color.bppT ⟨.alpha, 1⟩ = some 1 := by decide +kernel
+  have e6 : modT (3072 % U32B) 8 = some 0 := by decide +kernel
+  have e7 : Trap.subU (3072 % U32B) 0 = some 3072 := by decide +kernel
+  simp only []
+  rw [e1, Trap.bind_some', Trap.dbgP_of (by decide), Trap.bind_some', e2, Trap.bind_some', e3, Trap.bind_some', e4,
+    Trap.bind_some', Trap.dbgP_of (by decide), Trap.bind_some', e5, Trap.bind_some', if_neg (by decide)]
+  unfold convBlocksMainT
+  rw [e6, Trap.bind_some', e7, Trap.bind_some', Trap.dbgP_of (by decide), Trap.bind_some']
+  exact hloop
+
+/-- the chunk itself: with the plain addition `none`, with the saturating one the last chunk (1 pixel) is decoded -/
+example :
+    TrapLoops.convBlockChunkT (fun a b => TrapLoops.ck32 (a + b)) ⟨.gray, 1⟩ .alpha .eight 1 (fun _ => false) 1 8 1 1 1 3072
+      4294966273 4294966273 ⟨4294966273, 0, 0, 1⟩ ⟨.line, 0, 536870785⟩ ⟨.out, 0, 4294966273⟩ 4294966272 = none ∧
+    (TrapLoops.convBlockChunkT (fun a b => some (TrapLoops.satAdd32 a b)) ⟨.gray, 1⟩ .alpha .eight 1 (fun _ => false) 1 8 1 1 1
+      3072 4294966273 4294966273 ⟨4294966273, 0, 0, 1⟩ ⟨.line, 0, 536870785⟩ ⟨.out, 0, 4294966273⟩ 4294966272).map
+        TrapLoops.outWrites = some [⟨.out, 4294966272, 1⟩] := by
+  decide +kernel
+
+/-! ### surface bounds from `check_likely_overflow` -/
+
+theorem pixel_surface_bound {encSize W H : Nat} (he : 0 < encSize) (hl : encSize < 256)
+    (h : checkLikelyOverflow (.pixel encSize none) W H = true) : W * H * encSize ≤ I64MAX := by
+  have wf : (Fam.pixel encSize none).WF := ⟨he, hl, fun _ h => by cases h⟩
+  exact (checkLikelyOverflow_iff wf W H).1 h
+
+theorem block_surface_bound {bx by_ bpb W H : Nat} (wf : (Fam.block bx by_ bpb).WF)
+    (h : checkLikelyOverflow (.block bx by_ bpb) W H = true) : divCeil W bx * divCeil H by_ * bpb ≤ I64MAX := by
+  have := (checkLikelyOverflow_iff wf W H).1 h
+  obtain ⟨a, _, c, _, _, _⟩ := wf
+  simpa only [Fam.px, PixelInfo.surfIdeal, ← divCeil_eq _ _ a, ← divCeil_eq _ _ c, ISIZE_MAX_eq] using this
+
+theorem planar_surface_bound {p1 p2 ssx ssy W H : Nat} (wf : (Fam.biPlanar p1 p2 ssx ssy).WF)
+    (h : checkLikelyOverflow (.biPlanar p1 p2 ssx ssy) W H = true) : TrapLoops.PlanarSurf p1 p2 ssx ssy W H := by
+  have := (checkLikelyOverflow_iff wf W H).1 h
+  obtain ⟨_, _, _, _, a, _, c, _⟩ := wf
+  simp only [Fam.px, PixelInfo.surfIdeal, ← divCeil_eq _ _ a, ← divCeil_eq _ _ c, ISIZE_MAX_eq] at this
+  have e1 : W * p1 * H = W * H * p1 := Nat.mul_right_comm _ _ _
+  have e2 : divCeil W ssx * p2 * divCeil H ssy = divCeil W ssx * divCeil H ssy * p2 := Nat.mul_right_comm _ _ _
+  have : W * H * p1 + divCeil W ssx * divCeil H ssy * p2 ≤ I64MAX := this
+  exact ⟨by omega, by omega⟩
+
+open TrapLoops in
+/-- **`for_each_pixel_untyped` / `for_each_pixel_rect_untyped`** (uncompressed family, every decoder of
+`uncompressed.rs`: `PixelCfg` = the entry `debug_assert`s + a pixel function instantiated for the two pixel sizes). -/
+theorem pixel_loops_trapfree (img : Img) (ok : img.Ok) (native : Color) (encSize decSize : Nat) (f : PxFn)
+    (c : PixelCfg img native encSize decSize f) :
+    (∃ evs, pixelFullT img native encSize decSize f = some evs ∧ ios evs = Stream.pixelFull encSize img.w img.h ∧
+      Wr (InRows 0 img.pitch img.h (img.w * img.color.bpp)) evs) ∧
+    ∀ W H ox oy, ox + img.w ≤ W → oy + img.h ≤ H → checkLikelyOverflow (.pixel encSize none) W H = true →
+      ∃ evs, pixelRectT img W H ox oy native encSize decSize f = some evs ∧
+        ios evs = Stream.pixelRect encSize W H ox oy img.w img.h ∧
+        Wr (InRows 0 img.pitch img.h (img.w * img.color.bpp)) evs :=
+  ⟨pixelFullT_spec ok c, fun _ _ _ _ hx hy hs =>
+    pixelRectT_spec ok c hx hy (pixel_surface_bound c.enc_pos c.enc_lt hs)⟩
+
+/-- the pixel functions named in `uncompressed.rs` fit the pixel sizes of every decoder they are used in, and every
+whole-image COPY decoder is registered for a colour it fits (glue tables `processFnUses`, `copyUses`) -/
+theorem pixel_glue_fits :
+    (TrapLoops.processFnUses.all fun u => u.2.2.2.fitsB u.2.1 u.2.2.1.bpp) = true ∧
+    (TrapLoops.copyUses.all fun u => match u.2.2 with
+      | .nothing => u.2.1.psz == 1 | .le16 => u.2.1.psz == 2 | .le32 => u.2.1.psz == 4 | .s8 => u.2.1.psz == 1
+      | .bgraSwap => u.2.1 == ⟨.rgba, 1⟩) = true := by
+  decide +kernel
+
+theorem pxfn_fits_of_fitsB {f : TrapLoops.PxFn} {e d : Nat} (h : f.fitsB e d = true) : f.Fits e d := by
+  cases f with
+  | helper a b =>
+    simp only [TrapLoops.PxFn.fitsB, Bool.and_eq_true, decide_eq_true_eq, List.any_eq_true, List.mem_range,
+      beq_iff_eq] at h
+    obtain ⟨⟨ha, hb⟩, c, hc, h1, h2⟩ := h
+    exact ⟨ha, hb, c, by omega, h1, h2⟩
+  | copy => show e = d; simpa [TrapLoops.PxFn.fitsB] using h
+  | unroll a b =>
+    simp only [TrapLoops.PxFn.fitsB, Bool.and_eq_true, Bool.or_eq_true, List.any_eq_true, List.mem_range,
+      beq_iff_eq] at h
+    obtain ⟨⟨ha, hb⟩, c, hc, h1, h2⟩ := h
+    exact ⟨ha, hb, c, by omega, h1, h2⟩
+
+/-- non-vacuity: R8G8B8_UNORM 5 × 3 into a strided RGBA U8 view (pitch 20 = row bytes) through the conversion buffer,
+full and rect; the hypotheses hold; with a pitch BELOW the row bytes (14 < 20) `rows_mut` cannot cut `[..bytes_per_row]`
+out of a 14-byte chunk and the mirror traps; so does a rect that sticks out of the surface (`u32` underflow of
+`surface_size.width - offset.x - image.width()`) -/
+example :
+    (⟨60, 5, 3, 20, ⟨.rgba, 1⟩⟩ : TrapLoops.Img).Ok ∧ TrapLoops.N8_TO_U8.fitsB 3 3 = true ∧
+    (TrapLoops.pixelFullT ⟨60, 5, 3, 20, ⟨.rgba, 1⟩⟩ ⟨.rgb, 1⟩ 3 3 TrapLoops.N8_TO_U8).map TrapLoops.ios =
+      some (Stream.pixelFull 3 5 3) ∧
+    (TrapLoops.pixelRectT ⟨60, 5, 3, 20, ⟨.rgba, 1⟩⟩ 9 7 2 1 ⟨.rgb, 1⟩ 3 3 TrapLoops.N8_TO_U8).map TrapLoops.outWrites =
+      some [⟨.out, 0, 20⟩, ⟨.out, 20, 20⟩, ⟨.out, 40, 20⟩] ∧
+    TrapLoops.pixelFullT ⟨48, 5, 3, 14, ⟨.rgba, 1⟩⟩ ⟨.rgb, 1⟩ 3 3 TrapLoops.N8_TO_U8 = none ∧
+    TrapLoops.pixelRectT ⟨60, 5, 3, 20, ⟨.rgba, 1⟩⟩ 9 7 6 1 ⟨.rgb, 1⟩ 3 3 TrapLoops.N8_TO_U8 = none := by
+  decide +kernel
+
+open TrapLoops in
+/-- **`read_exact_image` + `for_each_slice`** (the whole-image decoders `COPY_U8/U16/U32/S8` and the BGRA swap): for
+every view — contiguous: one read of all data, or strided: one read per row through `rows_mut` — no trap, exactly
+`w · h · bpp` bytes are read, the `assert!(buf.len() % 2 == 0)` / `% 4` of `cast::slice_le_to_ne_16/32` and the
+`out.swap(i, i + 2)` of the BGRA loop hold on every slice, and nothing is written outside the rows (a contiguous view
+has no padding). -/
+theorem read_exact_image_trapfree (img : Img) (ok : img.Ok) (g : SliceFn) (hg : g.Fits img.color) :
+    ∃ evs, copyFullT img g = some evs ∧
+      (ios evs = Stream.copyFull img.color.bpp img.w img.h ∨
+        ios evs = List.replicate img.h (.read (img.w * img.color.bpp))) ∧
+      Stream.span (ios evs) = img.w * img.h * img.color.bpp ∧ Wr (CopyWr img) evs :=
+  copyFullT_spec ok hg
+
+/-- non-vacuity: `COPY_U16` into a contiguous and into a strided RGBA U16 view; an odd data length fails the assertion
+of `slice_le_to_ne_16` -/
+example :
+    (TrapLoops.copyFullT ⟨48, 2, 3, 16, ⟨.rgba, 2⟩⟩ .le16).map TrapLoops.ios = some [.read 48] ∧
+    (TrapLoops.copyFullT ⟨56, 2, 3, 20, ⟨.rgba, 2⟩⟩ .le16).map TrapLoops.ios = some [.read 16, .read 16, .read 16] ∧
+    TrapLoops.copyFullT ⟨15, 5, 3, 5, ⟨.gray, 1⟩⟩ .le16 = none := by
+  decide +kernel
+
+/-- every block / sub-sampled format of the decoder table leaves room for one block row of the widest native pixel
+(16 bytes) in the conversion buffer: `debug_assert!(buffer_size.width >= block_width)` (read_write.rs:809) -/
+theorem block_formats_fit_conversion_buffer :
+    (Stream.formatTable.all fun row => match row.2 with
+      | .block bw bh _ => decide (bw * (16 * bh) ≤ TrapLoops.BUFFER_BYTES)
+      | _ => true) = true := by
+  decide +kernel
+
+open TrapLoops in
+/-- **`for_each_block_untyped` / `for_each_block_rect_untyped`** with every `ProcessBlocksFn` shape
+(`general_process_blocks::<bx, by>` for ASTC, `process_4x4_blocks_helper` with `handle_width_offset` and the aligned fast
+path whichever way the alignment test goes, `process_2x1_blocks_helper`, `process_8x1_blocks_helper`) and
+`ChannelConversionBuffer::process_blocks`: no trap for every surface, rect, view and colour pair — with NO bound on the
+width (F17 repaired).  `BlockCfg` = the entry `debug_assert`s, the unit sizes of the shape, and
+`block_formats_fit_conversion_buffer`. -/
+theorem block_loops_trapfree (img : Img) (ok : img.Ok) (native : Color) (p : BlkFn) (bpb size : Nat)
+    (c : BlockCfg img native p bpb size) (al : Sl → Bool) :
+    (∃ evs, blockFullT img native p bpb size al = some evs ∧ ios evs = Stream.blockFull p.bx p.by_ bpb img.w img.h ∧
+      Wr (InRows 0 img.pitch img.h (img.w * img.color.bpp)) evs) ∧
+    ∀ W H ox oy, ox + img.w ≤ W → oy + img.h ≤ H → W < U32B → H < U32B → (Fam.block p.bx p.by_ bpb).WF →
+      checkLikelyOverflow (.block p.bx p.by_ bpb) W H = true →
+      ∃ evs, blockRectT img W H ox oy native p bpb al = some evs ∧
+        ios evs = Stream.blockRect p.bx p.by_ bpb W H oy img.h ∧
+        Wr (InRows 0 img.pitch img.h (img.w * img.color.bpp)) evs :=
+  ⟨blockFullT_spec al ok c, fun _ _ _ _ hx hy hW hH wf hs =>
+    blockRectT_spec al ok c hx hy hW hH (block_surface_bound wf hs)⟩
+
+/-- non-vacuity: BC1 10 × 6 (RGBA U8 native) into RGB U8 through the conversion buffer and into RGBA U8 directly, rect of
+a 21 × 13 surface at (3, 2); ASTC 12 × 12 F32 into RGB F32; a data slice one byte too short, and a rect outside the
+surface (`block_line[block_range]` out of range), trap -/
+example :
+    (⟨280, 10, 6, 50, ⟨.rgb, 1⟩⟩ : TrapLoops.Img).Ok ∧
+    (TrapLoops.blockFullT ⟨280, 10, 6, 50, ⟨.rgb, 1⟩⟩ ⟨.rgba, 1⟩ .four 8 4 (fun _ => true)).map TrapLoops.ios =
+      some (Stream.blockFull 4 4 8 10 6) ∧
+    (TrapLoops.blockRectT ⟨290, 10, 6, 50, ⟨.rgba, 1⟩⟩ 21 13 3 2 ⟨.rgba, 1⟩ .four 8 (fun _ => false)).map TrapLoops.ios =
+      some (Stream.blockRect 4 4 8 21 13 2 6) ∧
+    ((TrapLoops.blockRectT ⟨7960, 30, 20, 400, ⟨.rgb, 4⟩⟩ 100 100 7 5 ⟨.rgba, 4⟩ (.general 12 12) 16 (fun _ => false)).map
+      fun e => (TrapLoops.outWrites e).length) = some 71 ∧
+    TrapLoops.blockFullT ⟨279, 10, 6, 50, ⟨.rgb, 1⟩⟩ ⟨.rgba, 1⟩ .four 8 4 (fun _ => true) = none ∧
+    TrapLoops.blockRectT ⟨290, 10, 6, 50, ⟨.rgba, 1⟩⟩ 21 13 15 2 ⟨.rgba, 1⟩ .four 8 (fun _ => false) = none := by
+  decide +kernel
+
+open TrapLoops in
+/-- **`for_each_bi_planar` / `for_each_bi_planar_rect`** with `process_bi_planar_helper` and
+`ChannelConversionBuffer::process_bi_planar`, for every `BiPlaneInfo` the format table could hold (`Fam.WF`). -/
+theorem biplanar_loops_trapfree (img : Img) (ok : img.Ok) (native : Color) (p1 p2 ssx ssy : Nat)
+    (c : PlanarCfg img native p1 p2 ssx ssy) (wf : (Fam.biPlanar p1 p2 ssx ssy).WF) :
+    (checkLikelyOverflow (.biPlanar p1 p2 ssx ssy) img.w img.h = true →
+      ∃ evs, planarFullT img native p1 p2 ssx ssy = some evs ∧
+        ios evs = Stream.biPlanarFull p1 p2 ssx ssy img.w img.h ∧
+        Wr (InRows 0 img.pitch img.h (img.w * img.color.bpp)) evs) ∧
+    ∀ W H ox oy, ox + img.w ≤ W → oy + img.h ≤ H → W < U32B → H < U32B →
+      checkLikelyOverflow (.biPlanar p1 p2 ssx ssy) W H = true →
+      ∃ evs, planarRectT img W H ox oy native p1 p2 ssx ssy = some evs ∧
+        Stream.biPlanarRect p1 p2 ssx ssy W H oy img.h = .ok (ios evs) ∧
+        Wr (InRows 0 img.pitch img.h (img.w * img.color.bpp)) evs :=
+  ⟨fun hs => planarFullT_spec ok c (planar_surface_bound wf hs), fun _ _ _ _ hx hy hW hH hs =>
+    planarRectT_spec ok c hx hy hW hH (planar_surface_bound wf hs)⟩
+
+/-- non-vacuity: NV12 5 × 3 into RGB U8 and (through the conversion buffer) RGBA U8, rect 3 × 2 at (1, 1); a view whose
+data is one byte short traps in `get_row` -/
+example :
+    (TrapLoops.planarFullT ⟨55, 5, 3, 20, ⟨.rgb, 1⟩⟩ ⟨.rgb, 1⟩ 1 2 2 2).map TrapLoops.ios =
+      some (Stream.biPlanarFull 1 2 2 2 5 3) ∧
+    (TrapLoops.planarRectT ⟨32, 3, 2, 20, ⟨.rgba, 1⟩⟩ 5 3 1 1 ⟨.rgb, 1⟩ 1 2 2 2).map TrapLoops.ios =
+      (Stream.biPlanarRect 1 2 2 2 5 3 1 2).toOption ∧
+    TrapLoops.planarFullT ⟨54, 5, 3, 20, ⟨.rgb, 1⟩⟩ ⟨.rgb, 1⟩ 1 2 2 2 = none := by
+  decide +kernel
+
+open TrapLoops in
+/-- **The decode loops of `read_write.rs` are total** — assembled.  For every non-empty output view (`Img.Ok`), every
+native colour: each of the four loop families, instantiated the way the decoders of `uncompressed.rs`, `bc.rs`,
+`astc.rs`, `sub_sampled.rs`, `bi_planar.rs` instantiate it, returns `some` for the full decode and for every rect of
+every surface that passed `check_likely_overflow`; its reader / allocator trace is the one of C06 / C07's model and all
+writes stay inside the rows of the view.  With `parse_layout_trapfree`, `cursor_ops_trapfree`,
+`decode_geometry_trapfree` and section 6 this closes the decode path from the first header byte to the last output
+byte; what remains outside the proof: the `astc-decode` crate, `std` I/O and allocation, termination of the REAL loops
+(the mirrors' loops terminate), and the assumption that `f32` arithmetic never panics. -/
+theorem decode_loops_trapfree (img : Img) (ok : img.Ok) (native : Color) :
+    (∀ encSize decSize f, PixelCfg img native encSize decSize f →
+      (∃ evs, pixelFullT img native encSize decSize f = some evs ∧ ios evs = Stream.pixelFull encSize img.w img.h ∧
+        Wr (InRows 0 img.pitch img.h (img.w * img.color.bpp)) evs) ∧
+      ∀ W H ox oy, ox + img.w ≤ W → oy + img.h ≤ H → checkLikelyOverflow (.pixel encSize none) W H = true →
+        ∃ evs, pixelRectT img W H ox oy native encSize decSize f = some evs ∧
+          ios evs = Stream.pixelRect encSize W H ox oy img.w img.h ∧
+          Wr (InRows 0 img.pitch img.h (img.w * img.color.bpp)) evs) ∧
+    (∀ g : SliceFn, g.Fits img.color → ∃ evs, copyFullT img g = some evs ∧
+      Stream.span (ios evs) = img.w * img.h * img.color.bpp ∧ Wr (CopyWr img) evs) ∧
+    (∀ p bpb size, BlockCfg img native p bpb size → ∀ al : Sl → Bool,
+      (∃ evs, blockFullT img native p bpb size al = some evs ∧ ios evs = Stream.blockFull p.bx p.by_ bpb img.w img.h ∧
+        Wr (InRows 0 img.pitch img.h (img.w * img.color.bpp)) evs) ∧
+      ∀ W H ox oy, ox + img.w ≤ W → oy + img.h ≤ H → W < U32B → H < U32B → (Fam.block p.bx p.by_ bpb).WF →
+        checkLikelyOverflow (.block p.bx p.by_ bpb) W H = true →
+        ∃ evs, blockRectT img W H ox oy native p bpb al = some evs ∧
+          ios evs = Stream.blockRect p.bx p.by_ bpb W H oy img.h ∧
+          Wr (InRows 0 img.pitch img.h (img.w * img.color.bpp)) evs) ∧
+    (∀ p1 p2 ssx ssy, PlanarCfg img native p1 p2 ssx ssy → (Fam.biPlanar p1 p2 ssx ssy).WF →
+      (checkLikelyOverflow (.biPlanar p1 p2 ssx ssy) img.w img.h = true →
+        ∃ evs, planarFullT img native p1 p2 ssx ssy = some evs ∧
+          ios evs = Stream.biPlanarFull p1 p2 ssx ssy img.w img.h ∧
+          Wr (InRows 0 img.pitch img.h (img.w * img.color.bpp)) evs) ∧
+      ∀ W H ox oy, ox + img.w ≤ W → oy + img.h ≤ H → W < U32B → H < U32B →
+        checkLikelyOverflow (.biPlanar p1 p2 ssx ssy) W H = true →
+        ∃ evs, planarRectT img W H ox oy native p1 p2 ssx ssy = some evs ∧
+          Stream.biPlanarRect p1 p2 ssx ssy W H oy img.h = .ok (ios evs) ∧
+          Wr (InRows 0 img.pitch img.h (img.w * img.color.bpp)) evs) :=
+  ⟨fun e d f c => pixel_loops_trapfree img ok native e d f c,
+   fun g hg => (read_exact_image_trapfree img ok g hg).imp fun _ h => ⟨h.1, h.2.2.1, h.2.2.2⟩,
+   fun p bpb size c al => block_loops_trapfree img ok native p bpb size c al,
+   fun p1 p2 ssx ssy c wf => biplanar_loops_trapfree img ok native p1 p2 ssx ssy c wf⟩
+
+/-- the views of C20 are the views of this section: every non-empty `View` with C20's invariant, a slice length
+`≤ isize::MAX` (the language's bound for every slice) and a `usize` pitch gives an `Img.Ok` for every colour of its
+pixel size -/
+theorem view_invariant_is_img_ok (v : View) (inv : C20.Inv v) (hne : ¬ (v.w = 0 ∨ v.h = 0)) (hl : v.len ≤ I64MAX)
+    (hp : v.pitch < U64) (c : TrapLoops.Color) (hc : c.bpp = v.bpp) (hpsz : c.psz = 1 ∨ c.psz = 2 ∨ c.psz = 4) :
+    (⟨v.len, v.w, v.h, v.pitch, c⟩ : TrapLoops.Img).Ok :=
+  { w_pos := by show 0 < v.w; omega, w_lt := inv.w_lt, h_pos := by show 0 < v.h; omega, h_lt := inv.h_lt, psz := hpsz,
+    pitch_ge := by show v.w * c.bpp ≤ v.pitch; rw [hc]; exact inv.pitch_ge,
+    pitch_lt := hp,
+    len_eq := by show v.len = v.pitch * (v.h - 1) + v.w * c.bpp; rw [hc]; exact inv.len_eq hne,
+    len_le := hl }
+
+/-- the unit sizes of every row of the decoder table are admissible for the loops: block rows give a `BlkFn.Shape` (for the
+helper shape of matching block size) and fit the conversion buffer, bi-planar rows are in `PlanarCfg`'s ranges, pixel rows
+have an encoded size `1..255` -/
+theorem table_rows_admissible :
+    (Stream.formatTable.all fun row => match row.2 with
+      | .block bw bh bpb => decide (0 < bw ∧ bw < 16 ∧ 0 < bh ∧ bh < 16 ∧ 0 < bpb ∧ bpb < 256 ∧
+          bw * (16 * bh) ≤ TrapLoops.BUFFER_BYTES)
+      | .biPlanar p1 p2 sx sy => decide (0 < p1 ∧ p1 < 16 ∧ 0 < p2 ∧ p2 < 16 ∧ 0 < sx ∧ sx < 16 ∧ 0 < sy ∧ sy < 16)
+      | .pixel bpp _ => decide (0 < bpp ∧ bpp < 256)) = true := by
+  decide +kernel
+
+open TrapLoops in
+/-- glue: a block row of the table, decoded by a helper of its block size into a view of the native precision, satisfies
+`BlockCfg` for every native colour (so `block_loops_trapfree` applies to all 38 block / sub-sampled formats × every
+native / target colour pair) -/
+theorem block_cfg_from_table {name : String} {bw bh bpb : Nat} (hrow : (name, Fam.block bw bh bpb) ∈ Stream.formatTable)
+    (p : BlkFn) (hbx : p.bx = bw) (hby : p.by_ = bh) (h8 : p = .eight → bpb = 1) (img : Img) (ok : img.Ok)
+    (native : Color) (hprec : img.color.psz = native.psz) : BlockCfg img native p bpb native.bpp := by
+  have hall := List.all_eq_true.mp table_rows_admissible _ hrow
+  simp only [decide_eq_true_eq] at hall
+  obtain ⟨a1, a2, a3, a4, a5, a6, a7⟩ := hall
+  have hb := Color.bpp_bounds native (hprec ▸ ok.psz)
+  refine ⟨hprec, rfl, ⟨by omega, by omega, by omega, by omega, a5, h8, a6⟩, ?_⟩
+  rw [hbx, hby]
+  have : bw * (native.bpp * bh) ≤ bw * (16 * bh) := Nat.mul_le_mul_left _ (Nat.mul_le_mul_right _ hb.2)
+  omega
+
+/-- non-vacuity: BC7 is a row of the table -/
+example : ("BC7_UNORM", Fam.block 4 4 16) ∈ Stream.formatTable := by decide
 
 end Dds.C01
